@@ -30,6 +30,7 @@ type c01Alphabet struct {
 	requests []c04Req
 	wA, wB   string
 	hA, hB   string
+	tA, tB   string
 }
 
 var (
@@ -42,6 +43,7 @@ func c01GetAlphabet() *c01Alphabet {
 		a := &c01Alphabet{}
 		a.wA, a.wB = enum.CollidingWindows()
 		a.hA, a.hB = enum.CollidingHosts()
+		a.tA, a.tB = enum.CollidingTexts("||ad", 2, "^")
 		a.rules = []string{
 			"||example.org^",
 			"||example.org/ads",
@@ -81,11 +83,14 @@ func c01GetAlphabet() *c01Alphabet {
 			"! a comment line",         // a list may consist of nothing but such lines
 			"реклама-x$script",         // shares every window with the core rule: filed under a window that starts inside a character
 			"реклама-x$important",
+			a.tA, a.tB, // different texts with equal 32-bit hashes, both kept in the sequential table (short shortcut)
+			"/AB$match-case", "/ab$match-case", // texts that differ in letter case only (sequential table)
 			c01LongRule(), // longer than the list scanner's 4 KiB buffer, filed by $domain; its last domain is a request source
 		)
 		long := "http://example.org/ads?" + strings.Repeat("x", 4070) + "/banner-ads-"
 		urls := []string{"http://example.org/", "https://sub.example.org/ads?x=1", "http://x.com/banner", "http://EXAMPLE.ORG/ADS", "http://example.org/?u=example.org",
-			"http://x.test/" + a.wA + "/", "http://x.test/" + a.wB + "/", "http://example.org/-ads-/ad", "https://y.test/ad", "http://x.test/реклама-x?q", "http://example.org/\u212aelvin-ads-/\u0130/ad", "http://ads1.example.org/?u=http://ads2.example.org/", long}
+			"http://x.test/" + a.wA + "/", "http://x.test/" + a.wB + "/", "http://example.org/-ads-/ad", "https://y.test/ad", "http://x.test/реклама-x?q", "http://example.org/\u212aelvin-ads-/\u0130/ad", "http://ads1.example.org/?u=http://ads2.example.org/", long,
+			"http://" + strings.TrimSuffix(strings.TrimPrefix(a.tA, "||"), "^") + "/AB", "http://" + strings.TrimSuffix(strings.TrimPrefix(a.tB, "||"), "^") + "/x/ab"}
 		srcs := []string{"", "http://example.org/", "http://sub.example.org/", "https://www.google.co.uk/", "http://x.google.agoogle.com/", "http://" + a.hA + "/", "http://" + a.hB + "/", "http://x.com/", "http://user.github.io/", "http://a.co.uk/", "http://badexample.org/", "http://www.badexample.org/", "http://site0399.test/"}
 		for _, u := range urls {
 			for _, s := range srcs {
